@@ -20,4 +20,20 @@ def rng_c12(pid, tier, seed, log):
                       "note": "sampling is testing: it finds generator defects the encoding-layer theorems cannot see"}, True))
     cov = {"values_drawn": r["evaluations"], "statistical_tests": r["statistical_tests"], "sigma_threshold": r["sigma"],
            "modes": ["sequential", "16 threads", "32 processes"], "value_samples": r["samples"][:4]}
+    # the same sampling against the build WITHOUT debug assertions (a generator whose filling step sits inside a
+    # `debug_assert!` yields constant values there); bin/check has built it just before
+    exe_r = os.path.join(VERIF, ".build", "target", "release", "corr")
+    if os.path.exists(exe_r) and os.environ.get("VERIF_NO_RELEASE") != "1":
+        out_r = os.path.join(VERIF, ".build", "rngstat-release.json")
+        p2 = subprocess.run([exe_r, "--rngstat", str(max(20000, n // 5)), "--out", out_r], stdout=subprocess.PIPE, stderr=subprocess.STDOUT, text=True)
+        log.append(p2.stdout[-2000:])
+        if p2.returncode != 0:
+            return {"coverage": cov, "violations": viol, "tooling": ["rngstat (release profile) failed: " + p2.stdout[-800:]]}
+        r2 = json.load(open(out_r))
+        for f in r2["failures"]:
+            f["profile"] = "release"
+            viol.append((f["signature"] + "-" + f["mode"] + "-" + f["kind"] + "-release",
+                         {"kind": "statistical-sample", "signature": f["signature"], "case": f, "profile": "release",
+                          "note": "observed with the library built WITHOUT debug assertions"}, True))
+        cov["release_profile"] = {"values_drawn": r2["evaluations"], "statistical_tests": r2["statistical_tests"]}
     return {"coverage": cov, "violations": viol}
